@@ -38,6 +38,9 @@ def variants(algo, tier):
         out.append(("l2reg", {"init": "svd", "l2_reg": 0.1}, 3 if q else 6, False))
         out.append(("orthogonalise", {"init": "svd", "orthogonalise": 2}, 3 if q else 6, False))
         out.append(("fixed-mode0", {"init": "random", "fixed_modes": [0]}, 3 if q else 6, False))
+        out.append(("fixed-last-and-0-unsorted", {"init": "random", "fixed_modes": "LAST,0"}, 3 if q else 6, False))
+        out.append(("fixed-0-and-last", {"init": "svd", "fixed_modes": "0,LAST"}, 2 if q else 5, False))
+        out.append(("fixed-mode0-normalize", {"init": "random", "fixed_modes": [0], "normalize_factors": True}, 3 if q else 6, False))
         out.append(("rec_error-criterion", {"init": "svd", "cvg_criterion": "rec_error"}, 3 if q else 6, False))
     elif algo == "non_negative_parafac":
         for init in ("svd", "random"):
@@ -50,6 +53,9 @@ def variants(algo, tier):
         out.append(("normalize", {"init": "random", "normalize_factors": True}, 2 if q else 5, False))
         out.append(("sparsity", {"init": "svd", "sparsity_coefficients": "PERMODE:0.1"}, 2 if q else 5, False))
         out.append(("fixed-last", {"init": "random", "fixed_modes": "LAST"}, 2 if q else 4, False))
+        out.append(("fixed-last-normalize", {"init": "random", "fixed_modes": "LAST", "normalize_factors": True}, 2 if q else 4, False))
+        out.append(("fixed-0-last-normalize", {"init": "svd", "fixed_modes": "0,LAST", "normalize_factors": True}, 2 if q else 4, False))
+        out.append(("fixed-0-sparsity", {"init": "random", "fixed_modes": [0], "sparsity_coefficients": "PERMODE:0.1"}, 2 if q else 4, False))
         if not q:
             out.append(("exact", {"init": "svd", "exact": True}, 3, False))
             out.append(("nn-mode0-only", {"init": "random", "nn_modes": [0]}, 4, False))
@@ -109,6 +115,8 @@ def shapes_for(algo, tier):
 
 
 def families_for(algo, tier):
+    if algo == "parafac":
+        return ["generic", "lowrank", "integer", "small-norm"] if tier == "quick" else ["generic", "lowrank", "integer", "nonneg", "small-norm"]
     if algo in NONNEG_ALGOS:
         return ["nonneg", "nonneg-lowrank", "generic"] if tier == "quick" else ["nonneg", "nonneg-lowrank", "generic", "sparse-nonneg", "integer"]
     return ["generic", "lowrank", "integer"] if tier == "quick" else ["generic", "lowrank", "integer", "nonneg"]
@@ -135,6 +143,8 @@ def materialise(cfg, shape, rank, seed):
             v = [float(v.split(":")[1])] * len(shape)
         elif v == "LAST":
             v = [len(shape) - 1]
+        elif isinstance(v, str) and ("LAST" in v.split(",")):
+            v = [len(shape) - 1 if t == "LAST" else int(t) for t in v.split(",")]
         elif v == "UNEVEN":
             continue
         elif isinstance(v, list):
